@@ -20,7 +20,7 @@ func init() {
 	Register(&Rule{
 		ID:    "R-ERRDROP",
 		Doc:   "forward may-dataflow over every error-typed call result {unchecked, pending-non-nil}: no unchecked error reaches a return, no pending non-nil error reaches a return whose error operand is nil, no error result is discarded unless the callee is infallible (all returns nil) or in the reasoned table",
-		Props: []string{"C01", "C02", "C03", "C04", "C07", "C08", "C14", "C18", "C19"},
+		Props: []string{"C01", "C02", "C03", "C04", "C07", "C08", "C14", "C18", "C19", "C11"},
 		Min:   map[string]int{"C01": 40, "C02": 60, "C03": 20, "C04": 40, "C07": 20, "C08": 40, "C14": 40, "C18": 1},
 		Run:   runErrDrop,
 	})
@@ -222,6 +222,9 @@ func runErrDrop(c *core.Ctx) []core.Obligation {
 		switch {
 		case strings.HasPrefix(n, "json.(encoder)"), strings.HasPrefix(n, "json.(*Encoder)"), strings.HasPrefix(n, "json.Marshal"), strings.HasPrefix(n, "json.Append"), strings.HasPrefix(n, "json.construct"):
 			return []string{"C01", "C14"}
+		case strings.HasPrefix(n, "json.(*Decoder)"):
+			// what the Decoder does with its reader's errors is C11's subject
+			return []string{"C02", "C14", "C11"}
 		case strings.HasPrefix(n, "json."):
 			return []string{"C02", "C14"}
 		case strings.HasPrefix(n, "proto.Append"), strings.HasPrefix(n, "proto.(FieldNumber)"), strings.Contains(n, "ewrite"):
